@@ -2,6 +2,7 @@ package core
 
 import (
 	"bufio"
+	"bytes"
 	"context"
 	"encoding/json"
 	"fmt"
@@ -75,9 +76,9 @@ func WorkerMain(name, in, out string) int {
 		b, _ := json.Marshal(res)
 		w.Write(b)
 		w.WriteByte('\n')
-		if len(res.Findings) > 0 {
-			w.Flush()
-		}
+		// every result is on disk before the next case starts: when the process dies the parent knows exactly
+		// which case it died on (buffered results used to make it blame an earlier, innocent case)
+		w.Flush()
 		i++
 	}
 	if prog != nil {
@@ -147,7 +148,13 @@ func (c *Ctx) RunSharded(cases []json.RawMessage, o ShardOpts) error {
 				}
 				bw := bufio.NewWriter(f)
 				for _, ci := range pending {
-					bw.Write(cases[ci])
+					// one case per line: cases that come from a (pretty-printed) replay file are compacted
+					var cb bytes.Buffer
+					if json.Compact(&cb, cases[ci]) == nil {
+						bw.Write(cb.Bytes())
+					} else {
+						bw.Write(cases[ci])
+					}
 					bw.WriteByte('\n')
 				}
 				bw.Flush()
